@@ -2,6 +2,6 @@ SPECIFICATION TSpec
 CONSTANTS
   MaxLevel = 255
   StrictLen = FALSE
-  Shape = "head"
+  Shape = "nextafter"
 INVARIANT Done
 CHECK_DEADLOCK FALSE
